@@ -983,10 +983,11 @@ func compileType(ctx *blockCtx, t *ast.TypeSpec) {
 		return
 	}
 	if t.Assign != token.NoPos { // alias type
-		ctx.cb.AliasType(name, toType(ctx, t.Type))
+		ctx.cb.AliasType(name, toType(ctx, t.Type), t.Name)
 	} else {
-		ctx.cb.NewType(name).InitType(ctx.pkg, toType(ctx, t.Type))
+		ctx.cb.NewType(name, t.Name).InitType(ctx.pkg, toType(ctx, t.Type))
 	}
+	defNames(ctx, []*ast.Ident{t.Name}, nil)
 }
 
 type (
